@@ -281,11 +281,38 @@ class Check(common.Check):
                 out.append(rng.choice([0, 1, 2, 7, -1, 1000]))
             elif r < 0.65:
                 out.append(rng.choice([0.0, 1.0, 0.5, -2.25, 7.0]))
-            elif r < 0.9:
+            elif r < 0.85:
                 out.append(rng.choice(['abc', '', 'x', 'é']))
+            elif r < 0.93:
+                out.append(bytes(rng.randrange(256) for _ in range(rng.choice([0, 1, 2, 3, 4, 5, 6, 7, 9]))))
             else:
                 out.append(rng.choice([True, False]))
         return out
+
+    def g_blob_args(self, rng):
+        """a blob of every size mod 4 in every argument position, followed by data-carrying arguments"""
+        n = rng.randrange(1, 5)
+        pos = rng.randrange(n)
+        out = []
+        for j in range(n):
+            if j == pos or rng.random() < 0.2:
+                out.append(bytes(rng.randrange(1, 256) for _ in range(rng.choice([0, 1, 2, 3, 4, 5, 6, 7, 8, 9, 13]))))
+            else:
+                out.append(rng.choice([rng.choice([1, -2, 70000]), rng.choice([0.5, -2.25, 7.0]),
+                                       rng.choice(['abc', 'x', 'abcd', '']), rng.choice([True, False])]))
+        return out
+
+    def g_blob_dgram(self, rng):
+        """datagrams written by the harness's own OSC writer (the library's builder re-parses its output,
+        so a decoder defect cannot be seen through it)"""
+        def one():
+            return enc_msg(rng.choice(self.PATHS), self.g_blob_args(rng))
+        if rng.random() < 0.55:
+            return one()
+        els = [one() for _ in range(rng.randrange(1, 4))]
+        if rng.random() < 0.4:
+            els.insert(rng.randrange(len(els) + 1), enc_bundle(rng.choice([1, 2 ** 32]), [one()]))
+        return enc_bundle(rng.choice([1, 2 ** 32, 3 * 2 ** 32]), els)
 
     def g_tmpl(self, rng):
         n = rng.choice([0, 1, 1, 2, 3])
@@ -310,6 +337,8 @@ class Check(common.Check):
         def one():
             return enc_msg(self.g_address(rng), self.g_args(rng))
         r = rng.random()
+        if rng.random() < 0.25:
+            return self.g_blob_dgram(rng).hex(), 'strict'
         if r < 0.6:
             d, tag = one(), 'strict'
         elif r < 0.8:
@@ -698,9 +727,49 @@ class Check(common.Check):
             strict = False
         if strict and not o.startswith('ok '):
             return {'what': f'well-formed OSC 1.0 datagram rejected: {o}', 'signature': 'c18:decoder-rejects'}
+        if strict:
+            want = self.canon_decoded(pkt)
+            if want is not None and o != 'ok ' + want:
+                return {'what': f'decode(independent_encode(msg)) != msg: OscPacket gives {o[3:]!r:.300}, the strict '
+                                f'OSC 1.0 reading of the datagram is {want!r:.300}', 'signature': 'c18:decoder-wrong'}
         if c.get('tag') == 'nothing' and o.startswith('ok ') and o != 'ok ':
             return {'what': f'undecodable datagram produced messages: {o[:120]}', 'signature': 'c18:decoder-accepts-garbage'}
         return None
+
+    @classmethod
+    def canon_vals(cls, vs):
+        out = []
+        for v in vs:
+            t = v[0]
+            if t == 'i':
+                out.append(f'i{v[1]}')
+            elif t == 'f':
+                out.append('fnan' if (v[1] >> 23) & 255 == 255 and v[1] & 0x7fffff else f'f{v[1]}')
+            elif t == 's':
+                out.append('s' + v[1].hex())
+            elif t == 'b':
+                out.append('b' + v[1].hex())
+            elif t in 'TF':
+                out.append(t)
+            elif t == '[':
+                inner = cls.canon_vals(v[1])
+                if inner is None:
+                    return None
+                out.append(' '.join(['['] + inner + [']']))
+            else:
+                return None             # kinds the impl formatter prints differently (d, t, r, m, N, I …)
+        return out
+
+    @classmethod
+    def canon_decoded(cls, pkt):
+        rows = []
+        for t, addr, vals in osc10.flatten(pkt):
+            cv = cls.canon_vals(vals)
+            if cv is None:
+                return None
+            rows.append((t, ('None' if t is None else str(t)) + ';' + addr.hex() + ';' + ' '.join(cv)))
+        rows.sort(key=lambda r: r[0] or 0)
+        return '|'.join(r for _, r in rows)
 
     @classmethod
     def leaves(cls, vs):
